@@ -31,11 +31,11 @@ import (
 )
 
 type OpSpec struct {
-	Kind  string `json:"kind"`  // W1 Wv CW1 CWv WW
-	Ctx   string `json:"ctx"`   // bg dead mortal
-	Size  int    `json:"size"`  // payload size
-	Parts int    `json:"parts"` // number of slices for vectored kinds
-	Chunks []int `json:"chunks"` // RF/MR/MT: sizes of the low-level writes the call consists of
+	Kind   string `json:"kind"`   // W1 Wv CW1 CWv WW
+	Ctx    string `json:"ctx"`    // bg dead mortal
+	Size   int    `json:"size"`   // payload size
+	Parts  int    `json:"parts"`  // number of slices for vectored kinds
+	Chunks []int  `json:"chunks"` // RF/MR/MT: sizes of the low-level writes the call consists of
 }
 
 type WriterSpec struct {
@@ -58,28 +58,28 @@ type RandomSpec struct {
 }
 
 type ChanCase struct {
-	ID       string       `json:"id"`
-	QSize    int          `json:"qsize"`
-	Until    bool         `json:"until"`
-	Writers  []WriterSpec `json:"writers"`
-	Closers  []CloserSpec `json:"closers"`
-	Serve    string       `json:"serve"` // "pre": channel already active, reader parked; "full": serve + read loop scheduled
-	Reads    int          `json:"reads"`
-	MaxFault int          `json:"max_faults"`
-	Senders  []string     `json:"senders"`
-	Schedule [][]string   `json:"schedule"` // [kind, proc]
-	Random   *RandomSpec  `json:"random"`
-	Seed     int64        `json:"seed"`
-	MaxSteps int          `json:"max_steps"`
-	NoTrace  bool         `json:"no_trace"`
-	ReadCloses []int      `json:"read_closes"` // read numbers at which the inbound handler closes the channel itself
-	Scribble bool         `json:"scribble"` // C10: after every step another pool user obtains and overwrites pooled buffers of every size class
-	Swallow  bool         `json:"swallow"` // the probe's exception handler consumes every exception
-	CodecKind string      `json:"codec"` // "delim": text codec + delimiter codec ("\x00"); "lf": 2-byte length-field codec; wire parsed into frames
-	Codec    bool         `json:"-"`
-	PinPool  bool         `json:"pin_pool"` // one P, no GC (deterministic sync.Pool) without the scribbling pool user
-	WBuf     int          `json:"wbuf"` // >0: every transport call is also run through transport.NewTransport(conn, 0, wbuf) over a recording connection
-	Props    []string     `json:"props"` // which oracles to apply (empty = all)
+	ID         string       `json:"id"`
+	QSize      int          `json:"qsize"`
+	Until      bool         `json:"until"`
+	Writers    []WriterSpec `json:"writers"`
+	Closers    []CloserSpec `json:"closers"`
+	Serve      string       `json:"serve"` // "pre": channel already active, reader parked; "full": serve + read loop scheduled
+	Reads      int          `json:"reads"`
+	MaxFault   int          `json:"max_faults"`
+	Senders    []string     `json:"senders"`
+	Schedule   [][]string   `json:"schedule"` // [kind, proc]
+	Random     *RandomSpec  `json:"random"`
+	Seed       int64        `json:"seed"`
+	MaxSteps   int          `json:"max_steps"`
+	NoTrace    bool         `json:"no_trace"`
+	ReadCloses []int        `json:"read_closes"` // read numbers at which the inbound handler closes the channel itself
+	Scribble   bool         `json:"scribble"`    // C10: after every step another pool user obtains and overwrites pooled buffers of every size class
+	Swallow    bool         `json:"swallow"`     // the probe's exception handler consumes every exception
+	CodecKind  string       `json:"codec"`       // "delim": text codec + delimiter codec ("\x00"); "lf": 2-byte length-field codec; wire parsed into frames
+	Codec      bool         `json:"-"`
+	PinPool    bool         `json:"pin_pool"` // one P, no GC (deterministic sync.Pool) without the scribbling pool user
+	WBuf       int          `json:"wbuf"`     // >0: every transport call is also run through transport.NewTransport(conn, 0, wbuf) over a recording connection
+	Props      []string     `json:"props"`    // which oracles to apply (empty = all)
 }
 
 type ChanSt struct {
@@ -127,31 +127,31 @@ type ChanResult struct {
 }
 
 type chunkRun struct {
-	op    *opRun
-	j     int // 1-based
-	data  []byte
-	inPos int // position in the parsed stream (-1 = absent)
+	op      *opRun
+	j       int // 1-based
+	data    []byte
+	inPos   int // position in the parsed stream (-1 = absent)
 	entered int // step index at which the low-level write of this chunk was entered (w.enter released; -1 = not yet)
 }
 
 type opRun struct {
-	w       string
-	idx     int // 1-based
-	spec    OpSpec
-	payload []byte
-	chunks  []*chunkRun
-	accepted int // chunks that entered the queue so far
-	enters   int // low-level writes entered so far
-	began   int // step index of the w.enter release (-1 = not begun)
-	ret     int // step index at which the call was seen returned (-1 = not yet)
-	res     string
-	n       int64
-	err     error
-	callerNil bool // the call returned a nil error to its caller
+	w                string
+	idx              int // 1-based
+	spec             OpSpec
+	payload          []byte
+	chunks           []*chunkRun
+	accepted         int // chunks that entered the queue so far
+	enters           int // low-level writes entered so far
+	began            int // step index of the w.enter release (-1 = not begun)
+	ret              int // step index at which the call was seen returned (-1 = not yet)
+	res              string
+	n                int64
+	err              error
+	callerNil        bool // the call returned a nil error to its caller
 	cancelledWaiting bool // its context ended while it was parked waiting for queue space
-	inPos   int // position in the parsed stream (-1 = absent)
-	touched bool // the writer itself called the transport during this op (sync mode)
-	hadExc  bool // an exception was raised on the writer's goroutine during this (message) op
+	inPos            int  // position in the parsed stream (-1 = absent)
+	touched          bool // the writer itself called the transport during this op (sync mode)
+	hadExc           bool // an exception was raised on the writer's goroutine during this (message) op
 }
 
 type probe struct {
@@ -187,21 +187,21 @@ type chanWorld struct {
 	faultsUsed   int
 	closersDone  map[string]bool
 
-	accOrder   []*chunkRun       // chunks in the order their packet entered the queue (observed)
-	prevLoc    map[string]string // writer -> location after the previous step
-	parsedOff  int
-	parsed     []*chunkRun
-	fails      []Fail
-	failKeys   map[string]bool
-	ctxErrSeen map[string]bool
-	fatalFault string
-	rCloseCalls int
+	accOrder              []*chunkRun       // chunks in the order their packet entered the queue (observed)
+	prevLoc               map[string]string // writer -> location after the previous step
+	parsedOff             int
+	parsed                []*chunkRun
+	fails                 []Fail
+	failKeys              map[string]bool
+	ctxErrSeen            map[string]bool
+	fatalFault            string
+	rCloseCalls           int
 	rFirstCloseWasHandler bool
-	parentCancel context.CancelFunc
-	parentDone   bool
-	excOn      map[string]error
-	lowErr     map[string]error
-	exceptions []error
+	parentCancel          context.CancelFunc
+	parentDone            bool
+	excOn                 map[string]error
+	lowErr                map[string]error
+	exceptions            []error
 }
 
 func (p probe) HandleActive(ctx netty.ActiveContext) {
